@@ -251,6 +251,13 @@ func (w *Writer) SyncAndClose() error {
 }
 
 func Write(path string, offset int64, newVersion Version, opts Params, index []Item) (retErr error) {
+	// The index is written to a temporary file and renamed into place, so that a crash never
+	// leaves a partly written index behind: a short but well-formed index would be trusted.
+	finalPath := path
+	path = finalPath + ".tmp"
+	if err := os.Remove(path); err != nil && !errors.Is(err, os.ErrNotExist) {
+		return fmt.Errorf("write index remove stale temp: %w", err)
+	}
 	w, err := OpenWriter(path, offset, newVersion, opts)
 	if err != nil {
 		return err
@@ -288,7 +295,13 @@ func Write(path string, offset int64, newVersion Version, opts Params, index []I
 		}
 	}
 
-	return w.SyncAndClose()
+	if err := w.SyncAndClose(); err != nil {
+		return err
+	}
+	if err := os.Rename(path, finalPath); err != nil {
+		return fmt.Errorf("write index rename: %w", err)
+	}
+	return nil
 }
 
 func Read(path string, offset int64, opts Params) ([]Item, error) {
